@@ -729,7 +729,10 @@ def int_rule(ctx, prefix, writer_only=False):
                     if wf:
                         holes = [p_[1] for p_ in wf[1] if p_[0] != "lit" and isinstance(p_[1], dict)]
                         for h in holes:
-                            digit_writes.append(sir.expr_str(sir.strip_ref(h)).lstrip("*"))
+                            h = sir.strip_ref(h)
+                            while h.get("k") == "mcall" and h["m"] in ("to_string", "clone") and not h["args"]:
+                                h = sir.strip_ref(h["recv"])
+                            digit_writes.append(sir.expr_str(h).lstrip("*"))
                 if vname not in digit_writes:
                     probs.append("digits are written from `%s`, not from the integer `%s`" % (digit_writes, vname))
                 if any(d != vname for d in digit_writes):
@@ -1099,13 +1102,18 @@ def sourcemap_rules(ctx, prefix):
                     return sir.strip_ref(r_["recv"])
                 if r_.get("k") == "call" and (sir.call_path(r_) or "").endswith("encode_utf16") and r_["args"]:
                     return sir.strip_ref(r_["args"][0])
-            if e.get("k") == "call" and depth < 2 and len(e["args"]) == 1:
-                cands = [g for g in sc.fns if g.name == sir.call_name(e) and g.body]
+            if e.get("k") in ("call", "mcall") and depth < 2 and len(e["args"]) == 1:
+                hname = sir.call_name(e) if e.get("k") == "call" else e["m"]
+                cands = [g for g in sc.fns if g.name == hname and g.body]
                 if len(cands) == 1 and cands[0].body["stmts"] and cands[0].body["stmts"][-1].get("k") == "expr":
                     inner = utf16_measured(cands[0].body["stmts"][-1]["e"], depth + 1)
-                    pn = [x for x in cands[0].param_names() if x]
-                    if inner is not None and pn and sir.expr_str(inner) == pn[0]:
-                        return sir.strip_ref(e["args"][0])
+                    pn = [x for x in cands[0].param_names() if x and x != "self"]
+                    if inner is not None and pn:
+                        if sir.expr_str(inner) == pn[0]:
+                            return sir.strip_ref(e["args"][0])
+                        # the helper measures an expression over its parameter (`self.s[start..]`): substitute the argument
+                        txt = re.sub(r"\b%s\b" % re.escape(pn[0]), sir.expr_str(sir.strip_ref(e["args"][0])), sir.expr_str(inner))
+                        return {"k": "path", "s": txt, "segs": [txt], "sp": e.get("sp", [0, 0, 0, 0])}
             return None
         appended = set()
         for n in nodes:
@@ -1119,13 +1127,19 @@ def sourcemap_rules(ctx, prefix):
                 continue
             m_ = utf16_measured(inc["r"])
             ms = sir.expr_str(m_).replace(" ", "") if m_ is not None else None
-            if ms is not None and (ms in ("self.s[output_start_pos..]",) or (name == "append_raw" and sir.expr_str(m_) in appended)):
-                continue
+            if ms is not None:
+                mm_ = re.fullmatch(r"self\.s\[(\w+)\.\.\]", ms)
+                start_ok = False
+                if mm_:
+                    # the slice starts at a position taken from the output's own length before the append
+                    start_ok = any(n.get("k") == "local" and n["pat"].get("name") == mm_.group(1) and n.get("init") is not None and sir.expr_str(n["init"]).replace(" ", "") in ("self.s.len()", "self.cur_utf8_len()") for n in nodes)
+                if start_ok or (name == "append_raw" and sir.expr_str(m_) in appended):
+                    continue
             problems.append("column advanced by `%s` (must be the UTF-16 length of exactly the appended slice, or 1 for one ASCII character)" % r)
         if not incs:
             problems.append("column is never advanced")
         if name == "append_token":
-            start = [i for i, n in enumerate(nodes) if n.get("k") == "local" and n["pat"].get("name") == "output_start_pos"]
+            start = [i for i, n in enumerate(nodes) if n.get("k") == "local" and n.get("init") is not None and sir.expr_str(n["init"]).replace(" ", "") in ("self.s.len()", "self.cur_utf8_len()")]
             tocss = [i for i, n in enumerate(nodes) if n.get("k") == "mcall" and n["m"] == "to_css"]
             add = [i for i, n in enumerate(nodes) if n.get("k") == "mcall" and n["m"] == "add_raw"]
             sepw = [i for i, n in enumerate(nodes) if sir.write_fmt_call(n) and sir.write_fmt_call(n)[1] == [("lit", " ")]]
